@@ -92,7 +92,18 @@ def elem_to_value(ex, term, kind):
     if isinstance(kind, tuple) and kind[0] == 'tup':
         sort, mk, projs = tuple_parts(kind)
         return tuple(elem_to_value(ex, z3.simplify(p(term)), k) for p, k in zip(projs, kind[1]))
+    if isinstance(kind, tuple) and kind[0] == 'rec':
+        return ElemRef(rec_heap(ex, kind[1]), mk_int(term))
     return Sym(z3.simplify(term), kind)
+
+
+def rec_heap(ex, model_name):
+    """the record heap of a class: the ghost field that holds the symbolic map of that model"""
+    g = ex.obj(ex.ghost)
+    for v in g.fields.values():
+        if isinstance(v, Ref) and isinstance(ex.obj(v), MObj) and ex.obj(v).elem_model is not None and ex.obj(v).elem_model.name == model_name:
+            return Ref(v.oid)
+    raise Unsupported(f'no record heap (ghost MapOf) for {model_name}')
 
 
 def value_to_elem(ex, v, kind):
@@ -110,6 +121,8 @@ def value_to_elem(ex, v, kind):
         return mk(*[value_to_elem(ex, x, k) for x, k in zip(v, kind[1])])
     if isinstance(v, Sym) and v.k == kind:
         return v.t
+    if isinstance(kind, tuple) and kind[0] == 'rec' and isinstance(v, ElemRef) and ex.obj(v.mref).elem_model.name == kind[1]:
+        return zint(v.key)
     raise Unsupported(f'cannot store {v!r} as element of kind {kind}')
 
 
@@ -121,6 +134,8 @@ def guess_kind(ex, v):
         return v.k
     if isinstance(v, tuple):
         return ('tup', tuple(guess_kind(ex, x) for x in v))
+    if isinstance(v, ElemRef) and ex.obj(v.mref).elem_model is not None:
+        return ('rec', ex.obj(v.mref).elem_model.name)
     raise Unsupported(f'no element kind for {v!r}')
 
 
@@ -448,7 +463,7 @@ def subscript(ex, o, i):
                 idx = norm_index(ex, i, n)
                 k = ex.decide([idx == j for j in range(n)], 'list index')
                 return ex.wrap(ho.items[k], o)
-            return seq_get(ex, ho.sym, i)
+            return ex.wrap(seq_get(ex, ho.sym, i), o)
         if isinstance(ho, DObj):
             return dict_getitem(ex, o, ho, i)
         if isinstance(ho, MObj):
@@ -517,6 +532,9 @@ def seq_get(ex, seq, i):
     idx = norm_index(ex, i, n)
     if seq.k == 'bytes':
         return read_byte(ex, seq.t, idx)
+    if isinstance(seq.k[1], tuple) and seq.k[1][0] == 'rec' and not ex.quant:
+        # valid fact of the theory of sequences (hint for membership-quantified invariants, see forall_in)
+        ex.add_def(z3.Implies(z3.And(idx >= 0, idx < z3.Length(seq.t)), z3.Contains(seq.t, z3.Unit(seq.t[idx]))))
     return elem_to_value(ex, seq.t[idx], seq.k[1])
 
 
@@ -527,6 +545,11 @@ def reverse_bytes(ex, o):
     if isinstance(b, bytes):
         return b[::-1]
     n = conc_int(z3.Length(b.t))
+    if n is None and not ex.quant:
+        for k in (2, 4, 16, 1, 6, 8):  # common fixed widths (UUIDs, addresses, integers) known from the path condition
+            if ex.proves(z3.Length(b.t) == k):
+                n = k
+                break
     if n is not None and n <= 512:
         if n == 0:
             return b''
@@ -806,12 +829,23 @@ def elem_get(ex, er, name, raw=False):
     arr, kind, default = ho.cols[name]
     if not raw and name in getattr(ho, 'event_cols', ()):
         return EventView(er, name)
+    if not raw and (name + '?') in ho.cols:
+        # optional field: the Bool column `name?` says that the field is None (a case split at the read)
+        if ex.branch(mk_bool(z3.Select(ho.cols[name + '?'][0], zint(er.key)))):
+            return None
     return elem_to_value(ex, z3.Select(arr, zint(er.key)), kind)
 
 
 def elem_set(ex, er, name, v):
     ho = ex.wobj(er.mref)
+    if name not in ho.cols:
+        raise Unsupported(f'record field {name} not modelled')
     arr, kind, default = ho.cols[name]
+    if (name + '?') in ho.cols:
+        narr, nk, nd = ho.cols[name + '?']
+        ho.cols[name + '?'] = (z3.Store(narr, zint(er.key), z3.BoolVal(v is None)), nk, nd)
+        if v is None:
+            return
     ho.cols[name] = (z3.Store(arr, zint(er.key), value_to_elem(ex, v, kind)), kind, default)
 
 
@@ -878,7 +912,7 @@ def identical(ex, a, b):
             return equal(ex, a, b)
         raise Unsupported('identity of symbolic values')
     if isinstance(a, ElemRef) and isinstance(b, ElemRef):
-        return equal(ex, a.key, b.key) if a.mref == b.mref else False
+        return equal(ex, a.key, b.key) if a.mref.oid == b.mref.oid else False  # (identity does not depend on the heap version viewed)
     return a is b
 
 
@@ -940,6 +974,8 @@ def equal(ex, a, b):
         o = a if ka == 'obj' else b
         other = b if ka == 'obj' else a
         return obj_eq(ex, o, other)
+    if isinstance(a, ElemRef) or isinstance(b, ElemRef):
+        return elem_eq(ex, a, b)
     if isinstance(a, OpaqueStr) or isinstance(b, OpaqueStr):
         raise Unsupported('comparison of an opaque string')
     if ka != kb and {ka, kb} <= {'int', 'bool', 'bytes', 'bytearray', 'str', 'none', 'tuple', 'list', 'dict'}:
@@ -955,6 +991,22 @@ def equal(ex, a, b):
         if isinstance(s, Sym) and s.k in ('int', 'bool', 'bytes') and not isinstance(c, (int, bytes)):
             return False
     raise Unsupported(f'equality of {a!r} and {b!r}')
+
+
+def elem_eq(ex, a, b):
+    """== where an operand is a record of a symbolic map: the class's __eq__ (inline) or identity"""
+    if not isinstance(a, ElemRef):
+        a, b = b, a
+    cls = ex.obj(a.mref).elem_cls
+    eqf = getattr(cls, '__eq__', None)
+    if eqf is object.__eq__ or eqf is None:
+        return identical(ex, a, b) if isinstance(b, ElemRef) else False
+    if isinstance(eqf, types.FunctionType):
+        r = ex.call(ex.func_of_native(eqf), [a, b], {})
+        if r is NotImplemented:
+            return False
+        return ex.truth(r)
+    raise Unsupported(f'__eq__ of {cls}')
 
 
 def list_as_sym(ex, ref, kind=None):
